@@ -24,10 +24,14 @@ class FaultPlan:
         self.stall_us = 0
         self.fired: dict = {}
         self.extra_fired: dict = {}
+        self.where: dict = {}  # (fault kind @ protocol phase of the hit item) -> count: reach, not verdict
+        self.label = "?"
 
     def fire(self, kind: str, extra: bool = False) -> None:
         d = self.extra_fired if extra else self.fired
         d[kind] = d.get(kind, 0) + 1
+        key = f"{kind}@{self.label}"
+        self.where[key] = self.where.get(key, 0) + 1
 
     def any_fired(self) -> bool:
         return bool(self.fired) or bool(self.extra_fired)
@@ -135,6 +139,7 @@ class Link:
     # ---- host -> device (UART)
     def host_write_bytes(self, data: bytes) -> None:
         f = self.faults
+        f.label = "host-frame"
         out = bytearray()
         for b in data:
             pos = f.h2d_pos
@@ -155,9 +160,13 @@ class Link:
         replies = self.engine.feed(bytes(out), now)
         t = now + self.latency_us
         for chunk in replies:
+            label = "?"
             if isinstance(chunk, tuple):
-                t += self.slow_extra()
+                if chunk[1] == "slow":
+                    t += self.slow_extra()
+                label = chunk[2] if len(chunk) > 2 else "?"
                 chunk = chunk[0]
+            self.faults.label = label
             self.dev_emit_bytes(chunk, t)
 
     def slow_extra(self) -> int:
@@ -165,6 +174,7 @@ class Link:
 
     def host_write_report(self, data: bytes) -> None:
         f = self.faults
+        f.label = "host-report"
         pos = f.h2d_pos
         f.h2d_pos += 1
         CLOCK.advance(self.knobs.get("report_us", 125))
@@ -175,9 +185,13 @@ class Link:
         now = CLOCK.now_us
         t = now + self.latency_us
         for rep in self.engine.report(bytes(data)):
+            label = "?"
             if isinstance(rep, tuple):
-                t += self.slow_extra()
+                if rep[1] == "slow":
+                    t += self.slow_extra()
+                label = rep[2] if len(rep) > 2 else "?"
                 rep = rep[0]
+            self.faults.label = label
             self.dev_emit_report(rep, t)
 
     def drain(self) -> None:
